@@ -647,6 +647,16 @@ func (gen *Generator) GenerateCallBySymbol(sym *SexpSymbol, args []Sexp, orig Se
 	case "macexpand":
 		return gen.GenerateMacexpand(args)
 	case "syntaxQuote":
+		if len(args) == 1 {
+			// a splice needs a surrounding list or array to splice into;
+			// directly under the quote it would leave any number of
+			// values (or none) on the data stack.
+			if pair, isPair := args[0].(*SexpPair); isPair {
+				if sym, isSym := pair.Head.(*SexpSymbol); isSym && sym.name == "unquote-splicing" {
+					return fmt.Errorf("syntaxQuote: unquote-splicing (~@) must be inside a list or array")
+				}
+			}
+		}
 		return gen.GenerateSyntaxQuote(args)
 	case "include":
 		return gen.GenerateInclude(args)
